@@ -336,6 +336,9 @@ def evaluate_stream(ctx, res):
     aborted = res.harness_rc != 0
     if aborted:
         ctx.cov["sanitizer_aborts"] += 1
+    if getattr(res, "sanitizer_note", None):
+        ctx.cov["sanitizer_aborts"] += 1
+        ctx.notes.append("stream %s: %s (reported under C05); evaluated on the uninstrumented build instead" % (res.name, res.sanitizer_note))
     rep = res.report if getattr(res, "report", None) is not None else runner.check_stream(res)
     st = rep["stat"]
     nops = int(st.get("ops", 0))
@@ -579,6 +582,14 @@ def run_property(pid, tier, seed):
         def prepare(item):
             name, cfg, ops = item
             res = runner.run_stream(ctx.workdir, name, cfg, ops)
+            if res.harness_rc != 0 and pid != "C05":
+                # the sanitized harness aborted (C05 reports that); this property is decided on the functional
+                # behaviour, so run the same ops on the uninstrumented build to get a complete trace
+                res2 = runner.run_stream(ctx.workdir, name + "_plain", cfg, ops, kind="plain")
+                if res2.harness_rc == 0:
+                    res2.name = name
+                    res2.sanitizer_note = "sanitized harness exit %d: %s" % (res.harness_rc, res.harness_err.strip()[:300].replace("\n", " | "))
+                    res = res2
             runner.check_stream(res)
             return res
         items = streams(pid, tier, seed)
